@@ -1747,6 +1747,8 @@ def slist_elem_values(I_, st, ref, item):
 def setitem(I_, obj, idx, v, st, ctx, k, node=None):
   if isinstance(obj, Union):
     return I_.split(obj, st, lambda st2, o: setitem(I_, o, idx, v, st2, ctx, k, node))
+  if isinstance(idx, Union):
+    return I_.split(idx, st, lambda st2, i: setitem(I_, obj, i, v, st2, ctx, k, node))
   where = I_.where(ctx, node)
   if isinstance(obj, Ref) and st.obj(obj).kind == "slist":
     o = st.obj(obj)
@@ -1820,6 +1822,10 @@ def setitem(I_, obj, idx, v, st, ctx, k, node=None):
 
 
 def delitem(I_, obj, idx, st, ctx, k, node=None):
+  if isinstance(obj, Union):
+    return I_.split(obj, st, lambda st2, o: delitem(I_, o, idx, st2, ctx, k, node))
+  if isinstance(idx, Union):
+    return I_.split(idx, st, lambda st2, i: delitem(I_, obj, i, st2, ctx, k, node))
   if isinstance(obj, Ref):
     o = st.obj(obj)
     if o.kind == "list":
